@@ -124,6 +124,14 @@ def corpus():
                             A('/m/<x>', 3), A('/m/lit', 4), dict(op='remove', rule='/m/lit'),
                             A('/m/<x>/k', 5), dict(op='remove', rule='/m/<x>'), dict(op='remove', rule='/i/<id:int>/edit')],
                            full=True))
+    # 140 distinct filter specs are created (and their rules removed by prefix) between registering a filtered rule
+    # and using it again: the filter object of the surviving rule must still be THE filter of its spec
+    # (identity is what _match compares; a bounded / re-keyed cache would hand out a new object)
+    many = [A('/keep/<v:int>', 1)] + [A('/t%d/<x:re:a%d>' % (i, i), 2) for i in range(140)]
+    tail = [dict(op='remove', rule='/t*'), A('/keep/<v:int>', 3, ('POST',)), dict(op='by_rule', rule='/keep/<v:int>'),
+            dict(op='dispatch', path='/keep/5', verb='POST'), dict(op='dispatch', path='/keep/x', verb='GET'),
+            dict(op='listing')]
+    cs.append(dict(cmds=many + tail, oracle_from=141))
     # wildcard siblings, filter conflict, shared pattern with other names, method removal
     cs.append(_with_probes([A('/a/<x>', 1), A('/a/<v:int>', 2), A('/a/<x2>', 3, ('POST',)), A('/a/b', 4),
                             dict(op='remove_method', rule='/a/<x>', methods=['GET']), dict(op='remove', rule='/a/<x2>'),
@@ -362,9 +370,13 @@ def _oracle(case, obs):
     bad = _api_misuse(a.app.router)
     if bad:
         return bad
+    n_mut = 0
+    if case.get('oracle_from'):
+        probes = probes + [c for c in case['cmds'] if c['op'] not in MUTATING]
     for c in case['cmds']:
         if c['op'] not in MUTATING:
             continue
+        n_mut += 1
         router = a.app.router
         if c['op'] == 'remove' and c['rule'].endswith('*'):
             P = router.to_pattern(c['rule'])[:-1]
@@ -382,6 +394,8 @@ def _oracle(case, obs):
             hook_rule.setdefault(router.to_pattern(c['rule']), c['rule'])
         elif c['op'] == 'remove_hook' and res == 0:
             hook_rule.pop(router.to_pattern(c['rule']), None)
+        if n_mut < case.get('oracle_from', 0):
+            continue                # long set-up phase of a corpus case: the fresh-router comparison starts later
         f, why = _fresh_from(a, ctx, hook_rule)
         if f is None:
             return 'after %s: %s' % (_show(c), why)
